@@ -585,6 +585,11 @@ func VerifyNODATAForZoneWithWork(
 		if q.Qtype == dns.TypeDS && typesSet(types, dns.TypeSOA) {
 			return false, ErrNSECBadDelegation
 		}
+		// RFC 6840 §4.1: a parent-side NSEC3 at a zone cut (NS without
+		// SOA) proves nothing about any type at that name other than DS.
+		if q.Qtype != dns.TypeDS && aggressiveDelegationBitmap(types) {
+			return false, ErrNSECBadDelegation
+		}
 		return true, nil
 	} else if err != ErrNSECMissingCoverage {
 		return false, err
